@@ -112,6 +112,11 @@ SPLICE = {
     "triple_quoted_old": ('    assert [S, x0, "ß"] == snapshot(["""é\nü""", c0, "ß"])\n', ["x0", "c0"], True),
     "multi_line_whole": ('    assert S == snapshot("""é\nü""")  # ü\n', [], True),
     "multi_line_in_dict": ('    assert {1: S, 2: x0} == snapshot({1: """é\n  üöä""", 2: c0})\n', ["x0", "c0"], True),
+    "member_next_to_multi_line": ('    assert x0 in snapshot(["""é\nüö"""])\n', ["x0"], False),
+    "new_key_next_to_multi_line": ('    s = snapshot({1: """é\nüö"""})\n    assert s[2] == x0\n', ["x0"], False),
+    "insert_after_multi_line": ('    assert ["""é\nüö""", x0, S] == snapshot(["""é\nüö"""])\n', ["x0"], True),
+    "delete_multi_line": ('    assert [x0] == snapshot(["""é\nüö""", """\U0001F600\n€""", c0])\n', ["x0", "c0"], False),
+    "call_argument_after_multi_line": ('    assert P(a="""é\nüö""", b=x0) == snapshot(P(a="""é\nüö"""))\n', ["x0"], False),
     "nonascii_identifier_bound": ('    é = x0; ü = "ü"; assert é <= snapshot(c0), ü\n', ["x0", "c0"], False),
     "dict_value_str": ('    assert {"ä": S, "ö": x0} == snapshot({"ä": "ä", "ö": c0})\n', ["x0", "c0"], True),
     "delete_and_insert": ('    assert ["ü", x0] == snapshot(["é", "ü", c0, "ß"])\n', ["x0", "c0"], False),
@@ -123,7 +128,10 @@ def splice_case(tname, si, fbits, vals):
     """after the session every rewritten argument reads back (the test passes with inline-snapshot disabled when the
     needed categories were approved), the text outside the arguments is unchanged and the file still parses"""
     body, _, uses_s = SPLICE[tname]
-    ns = dict(vals)
+    from harness.support import SUPPORT_NS
+
+    ns = dict(SUPPORT_NS)
+    ns.update(vals)
     chosen = None
     if uses_s:
         for k, v in enumerate(STRS):
@@ -132,7 +140,7 @@ def splice_case(tname, si, fbits, vals):
         ns["S"] = chosen
     world.reset(ns)
     t = HEAD + "def test_a():\n" + body
-    flags = [n for n, b in zip(["fix", "trim", "update"], fbits) if b]
+    flags = [n for n, b in zip(["fix", "trim", "update", "create"], fbits) if b]
     r = world.plugin_session(t, cli=",".join(flags) if flags else "report")
     new = world.text_after(r)
     PathLog.record(f"{tname}{chosen!r}{flags}{sorted(r.written)}", nontrivial=bool(r.written),
@@ -145,7 +153,7 @@ def splice_case(tname, si, fbits, vals):
         ast.parse(str(new))
     if world.mask_snapshot_args(new) != world.mask_snapshot_args(t):
         return False
-    if "fix" in flags and "trim" in flags:
+    if "fix" in flags and "trim" in flags and "create" in flags:
         # everything that was wrong or superfluous is approved: the rewritten test passes without inline-snapshot
         return world.passes_when_disabled(new)
     if not r.written:
@@ -166,13 +174,13 @@ def splice_conditions():
     conds = []
     glb = {"splice_case": splice_case, "__name__": "harness.c12b"}
     for tname, (body, names, uses_s) in SPLICE.items():
-        params = [("si", "int")] + [(f"f{i}", "bool") for i in range(3)] + [(n, "int") for n in names]
+        params = [("si", "int")] + [(f"f{i}", "bool") for i in range(4)] + [(n, "int") for n in names]
         vd = "{" + ", ".join(f"{n!r}: {n}" for n in names) + "}"
         pre = [f"0 <= si < {len(STRS)}" if uses_s else "si == 0"]
         name = f"splice_{tname}"
-        conds.append(Cond(name, mkfn(name, params, f"return splice_case({tname!r}, si, [f0, f1, f2], {vd})", glb, pre=pre), timeout=900, group="file-rewrite",
-                          bounds=f"line {body.strip()!r}: int leaves symbolic" + (f", the written string one of {len(STRS)} (symbolic index)" if uses_s else "") + "; every subset of fix/trim/update"))
-    tw = mkfn("splice_twin", [("si", "int"), ("f0", "bool"), ("f1", "bool"), ("f2", "bool"), ("x0", "int"), ("c0", "int")], "return splice_case('list_after_nonascii', si, [f0, f1, f2], {'x0': x0, 'c0': c0})", glb, pre=["si == 0"], post="not _")
+        conds.append(Cond(name, mkfn(name, params, f"return splice_case({tname!r}, si, [f0, f1, f2, f3], {vd})", glb, pre=pre), timeout=900, group="file-rewrite",
+                          bounds=f"line {body.strip()!r}: int leaves symbolic" + (f", the written string one of {len(STRS)} (symbolic index)" if uses_s else "") + "; every subset of fix/trim/update/create"))
+    tw = mkfn("splice_twin", [("si", "int"), ("f0", "bool"), ("f1", "bool"), ("f2", "bool"), ("f3", "bool"), ("x0", "int"), ("c0", "int")], "return splice_case('list_after_nonascii', si, [f0, f1, f2, f3], {'x0': x0, 'c0': c0})", glb, pre=["si == 0"], post="not _")
     conds.append(Cond("splice_twin", tw, timeout=60, twin=True))
     return conds
 
